@@ -5,6 +5,7 @@ package h
 import (
 	"encoding/json"
 	"fmt"
+	sgbucket "github.com/couchbase/sg-bucket"
 	"os"
 	"path/filepath"
 	"sort"
@@ -22,8 +23,9 @@ import (
 type lcHandle struct {
 	b      *rosmar.Bucket
 	name   string
-	inc    int  // incarnation of the name's store this handle belongs to
-	closed bool // Close was called on it
+	inc    int                // incarnation of the name's store this handle belongs to
+	closed bool               // Close was called on it
+	ds     sgbucket.DataStore // default data store obtained right after the open
 }
 
 type lcStore struct {
@@ -133,7 +135,9 @@ func (w *lcWorld) doOpen(name, kind string, mode int) {
 		w.stores[name] = st
 	}
 	st.open++
-	w.handles = append(w.handles, &lcHandle{b: b, name: name, inc: st.inc})
+	nh := &lcHandle{b: b, name: name, inc: st.inc}
+	safely(func() { nh.ds = b.DefaultDataStore() }) // kept: "later calls" include calls on data stores obtained earlier
+	w.handles = append(w.handles, nh)
 }
 
 func (w *lcWorld) doClose(i int) {
@@ -231,6 +235,18 @@ func (w *lcWorld) probe() {
 			} else if errClass(werr) != "closed" || errClass(rerr) != "closed" {
 				w.bad("probe.closed.err", "closed handle %d of %s failed with %v / %v instead of the bucket-closed error", i, h.name, werr, rerr)
 			}
+			// ... and so must a data store object that was obtained from it while it was open
+			if h.ds != nil {
+				var e1, e2 error
+				if p := safely(func() {
+					e1 = h.ds.SetRaw(key, 0, nil, []byte(val))
+					_, _, e2 = h.ds.GetRaw(key)
+				}); p != "" {
+					w.bad("probe.panic", "a call on a data store of the closed handle %d panicked: %s", i, p)
+				} else if e1 == nil || e2 == nil {
+					w.bad("probe.closed", "handle %d of %s was closed but calls on a data store obtained from it earlier still succeed (write err=%v read err=%v)", i, h.name, e1, e2)
+				}
+			}
 		default:
 			// handle of a deleted store (or of a shut on-disk store): any error, but it must not work
 			if werr == nil && rerr == nil && string(got) == val {
@@ -322,6 +338,21 @@ func (w *lcWorld) exec(op Op) {
 		if len(w.handles) > 0 {
 			w.doClose(op.H % len(w.handles))
 		}
+	case "Expire":
+		// a document that is already past its (absolute) expiry: the bucket's expiry run fires at once
+		if len(w.handles) > 0 {
+			h := w.handles[op.H%len(w.handles)]
+			st := w.stores[h.name]
+			if st != nil && st.inc == h.inc && st.loaded && !h.closed {
+				safely(func() {
+					if ds := h.b.DefaultDataStore(); ds != nil {
+						_ = ds.SetRaw("expired", nowSec()-2, nil, []byte("x"))
+					}
+				})
+				time.Sleep(40 * time.Millisecond)
+				w.trace = append(w.trace, fmt.Sprintf("Expire(h%d %s)", op.H%len(w.handles), h.name))
+			}
+		}
 	case "CloseAndDelete":
 		if len(w.handles) > 0 {
 			i := op.H % len(w.handles)
@@ -367,7 +398,7 @@ func lcJudge(w *lcWorld, st *Stats) []Deviation {
 
 func TestC13(t *testing.T) {
 	st := statsFor("C13", "TestC13")
-	st.Rule = "rapid state machine over 2 bucket names x 3 URLs (in-memory, two directories): OpenBucket with each mode, Close, repeated Close, CloseAndDelete on any handle ever returned; after every step a write+read probe on every handle, cross-handle visibility of everything written, GetBucketNames and the on-disk files are compared with a registry model; non-trivial = at least two handles were open on one name while a Close / repeated Close / CloseAndDelete happened; distinct by the sequence of <op, outcome>"
+	st.Rule = "rapid state machine over 2 bucket names x 3 URLs (in-memory, two directories): OpenBucket with each mode, Close, repeated Close, CloseAndDelete on any handle ever returned, and writes of already-expired documents (so that the bucket's own expiry run has been through the store); after every step a write+read probe on every handle (for a closed one also through a data store object obtained while it was open), cross-handle visibility of everything written, GetBucketNames and the on-disk files are compared with a registry model; non-trivial = at least two handles were open on one name while a Close / repeated Close / CloseAndDelete happened; distinct by the sequence of <op, outcome>"
 	if replayMode() {
 		rp := loadReplay("TestC13")
 		if rp == nil {
@@ -424,6 +455,12 @@ func TestC13(t *testing.T) {
 					t.Skip("no handle")
 				}
 				do(Op{K: "Close", H: rapid.IntRange(0, len(w.handles)-1).Draw(t, "h")})
+			},
+			"expire": func(t *rapid.T) {
+				if len(w.handles) == 0 {
+					t.Skip("no handle")
+				}
+				do(Op{K: "Expire", H: rapid.IntRange(0, len(w.handles)-1).Draw(t, "h")})
 			},
 			"closeAndDelete": func(t *rapid.T) {
 				if len(w.handles) == 0 {
